@@ -13,6 +13,18 @@
     ('__all__' for an analysis) iff one of its own items is stale, empty otherwise; the queue holds exactly the
     algorithms with work.
 
+(c) reload histories in ONE process: what dawgie.pl.state.FSM._pipeline does at every (re)load,
+        schedule.build(factories, version.current(...), version.persistent())
+    several times in the same process, the data base being an in-memory back end (dawgie.db.c15fake: versions(),
+    update(), targets(); every versions() call hands out fresh copies, as a data base read does).  Between the
+    loads the scheduled algorithms "run": their versions are recorded with the real dawgie.pl.version.record on a
+    bot made the way dawgie.pl.worker.Context.run makes it.  History: load, record, load (nothing changed),
+    bump one versioned item, load, record, load (nothing changed).  Oracle (statement + the harness's own
+    book-keeping of what was persisted, never read back from the code): at every load exactly the owners of an
+    item whose current version is not among the persisted ones are scheduled - so nothing after a load whose
+    runs were recorded, and exactly the owner after the bump.  Each history runs in a forked child, i.e. in a
+    process that never loaded anything before, so a finding does not depend on the histories run earlier.
+
 Construct.graph is replaced by a stand-in that still runs Node.graph (node levels) but renders nothing.
 '''
 
@@ -22,6 +34,7 @@ import os
 import random
 import sys
 import time
+import types
 
 REPO = os.environ.get('VERIF_REPO', '/repo')
 
@@ -45,7 +58,10 @@ BOUND = (
     'Version: every pair and triple of versions in {0,1,2}^3 on four carrier classes (+ seeded random large '
     'integers); build: six fixed engines with <= 3 algorithms (3-10 versioned items) x every fresh/stale subset of '
     'their items x known targets in ([], [T1], [T1,T2]) with the stale/fresh representation cycled, plus seeded '
-    'random engines (<= 3 algorithms, <= 2x2 values) with random persisted tables'
+    'random engines (<= 3 algorithms, <= 2x2 values) with random persisted tables; reload: the six fixed engines x '
+    '{all items persisted, none, every second one} x known targets in ([], [T1], [T1,T2]) x every versioned item '
+    'bumped: load, record, load, bump, load, record, load in one (forked, fresh) process each, plus seeded random '
+    'histories (random engines, 1-2 bumps of random items per round, 2-3 rounds)'
 )
 CLAUSES = [
     'C15.order.lex',
@@ -307,6 +323,11 @@ def build_once(eng, factories, soft, prev, targets):
         dawgie.pl.schedule.build(factories, latest, prev)
     except Exception as e:  # pylint: disable=broad-except
         return [('C15.build.error', f'error:{type(e).__name__}', repr(e), 'build succeeds')]
+    return _compare(kinds, want, changed)
+
+
+def _compare(kinds, want, changed):
+    '''the schedule as it is now against `want` (algorithm -> todo) -> violation tuples'''
     bad = []
     nodes = {n.tag: n for n in _all_nodes(dawgie.pl.schedule.ae.at)}
     for aid, exp in want.items():
@@ -331,6 +352,186 @@ def build_once(eng, factories, soft, prev, targets):
     elif set(exp_que) - set(que):
         bad.append(('C15.build.scheduled', 'que:missing', sorted(que), exp_que))
     return bad
+
+
+# ---------------------------------------------------------------------------
+# (c) several loads in one process
+# ---------------------------------------------------------------------------
+
+_FDB = {'tables': ({}, {}, {}, {}), 'targets': []}
+_fdb = types.ModuleType('dawgie.db.c15fake')
+
+
+def _fdb_versions():
+    '''a read of the data base: fresh objects every time'''
+    return tuple({k: (v if v is True else list(v)) for k, v in t.items()} for t in _FDB['tables'])
+
+
+def _fdb_update(tsk, alg, sv, vn, v):
+    tasks, algs, svs, vals = _FDB['tables']
+    tn = tsk._name()  # pylint: disable=protected-access
+    tasks[tn] = True
+    rows = [(algs, [tn, alg.name()], alg)]
+    if sv is not None:
+        rows.append((svs, [tn, alg.name(), sv.name()], sv))
+        if vn is not None:
+            rows.append((vals, [tn, alg.name(), sv.name(), vn], v))
+    for table, name, item in rows:
+        known = table.setdefault('.'.join(name), [])
+        if item.asstring() not in known:
+            known.append(item.asstring())
+
+
+_fdb.versions = _fdb_versions
+_fdb.update = _fdb_update
+_fdb.targets = lambda: list(_FDB['targets'])
+sys.modules['dawgie.db.c15fake'] = _fdb
+dawgie.db.c15fake = _fdb
+
+ROUND = (('load',), ('record',), ('load',))
+
+
+def _bot(factories, kind, pkg, target):
+    '''the bot of sub-package pkg, made like dawgie.pl.worker.Context.run makes it'''
+    for fac in factories[dawgie.Factories[kind]]:
+        if dawgie.util.task_name(fac) == pkg:
+            if kind == 'task':
+                return fac(pkg, 0, 1, target)
+            if kind == 'analysis':
+                return fac(pkg, 0, 1)
+            return fac(pkg, 0, target)
+    raise KeyError((kind, pkg))
+
+
+def history_once(eng, factories, stale, ci, targets, steps):
+    '''several loads in this process -> violation tuples (clause, signature, observed, expected)'''
+    spec = eng.spec
+    eng.activate()
+    soft, prev = tables(spec, stale, ci)
+    _FDB['tables'] = tuple({k: (v if v is True else list(v)) for k, v in t.items()} for t in prev)
+    _FDB['targets'] = list(targets)
+    impl, real_targets = dawgie.context.db_impl, dawgie.db.targets
+    dawgie.context.db_impl = 'c15fake'
+    dawgie.db.targets = lambda: list(targets)
+    kinds = {G.alg_id(a): a['kind'] for a in spec['algs']}
+    # the oracle's own book of what is persisted: item -> version strings
+    book = {item: set(prev[item.count('.')].get(item, [])) for item in soft}
+    bad, loads, scheduled = [], 0, []
+    flat = (
+        factories[dawgie.Factories.analysis] + factories[dawgie.Factories.regress] + factories[dawgie.Factories.task]
+    )
+    try:
+        for step in steps:
+            if step[0] == 'bump':
+                soft[step[1]] = list(_bump(tuple(soft[step[1]]), step[2]))
+            elif step[0] == 'record':
+                # the algorithms scheduled by the previous load ran: the worker records their versions
+                for aid in scheduled:
+                    pkg, algn = aid.split('.')
+                    try:
+                        dawgie.pl.version.record(_bot(factories, kinds[aid], pkg, (targets or ['T0'])[0]), only=algn)
+                    except Exception as e:  # pylint: disable=broad-except
+                        bad.append(('C15.build.error', f'reload:record:{type(e).__name__}', repr(e), 'record succeeds'))
+                    for item in soft:
+                        if G.trim(item, 2) == aid:
+                            book[item].add(_s(soft[item]))
+            else:
+                loads += 1
+                eng.set_versions(soft)
+                changed = {G.trim(item, 2) for item, ver in soft.items() if _s(ver) not in book[item]}
+                want = {
+                    aid: ((['__all__'] if k == 'analysis' else list(targets)) if aid in changed else [])
+                    for aid, k in kinds.items()
+                }
+                scheduled = sorted(aid for aid, t in want.items() if t)
+                try:  # exactly FSM._pipeline
+                    dawgie.pl.schedule.build(
+                        factories, dawgie.pl.version.current(flat), dawgie.pl.version.persistent()
+                    )
+                except Exception as e:  # pylint: disable=broad-except
+                    bad.append(('C15.build.error', f'reload:error:{type(e).__name__}', {'load': loads, 'error': repr(e)}, 'build succeeds'))
+                    break
+                tag = 'first-load:' if loads == 1 else 'reload:'
+                for clause, sig, obs, exp in _compare(kinds, want, changed):
+                    bad.append((clause, tag + sig, {'load': loads, 'got': obs}, {'load': loads, 'want': exp, 'owners_of_changed_items': sorted(changed)}))
+    finally:
+        dawgie.context.db_impl, dawgie.db.targets = impl, real_targets
+    return bad, loads
+
+
+def _in_child(fn):
+    '''run fn() in a forked child (a process that has not loaded anything yet) -> its result'''
+    r, w = os.pipe()
+    pid = os.fork()
+    if pid == 0:
+        code = 1
+        try:
+            os.close(r)
+            with os.fdopen(w, 'w', encoding='utf-8') as fh:
+                fh.write(json.dumps(fn(), default=repr))
+            code = 0
+        finally:
+            os._exit(code)  # pylint: disable=protected-access
+    os.close(w)
+    with os.fdopen(r, 'r', encoding='utf-8') as fh:
+        text = fh.read()
+    _pid, status = os.waitpid(pid, 0)
+    if status != 0 or not text:
+        raise RuntimeError(f'C15 harness: the child running a reload history died (status {status})')
+    return json.loads(text)
+
+
+def _hist_worker(job):
+    '''job = list of (spec, [(stale, case index, targets, steps), ...]) -> per spec a list of [violations, loads]'''
+    G.quiet()
+    dawgie.pl.dag.Construct.graph = staticmethod(_graph)
+    res = []
+    with G.Workshop('c15h') as shop:
+        for spec, runs in job:
+            eng = shop.build(spec)
+            try:
+                factories = eng.scan()
+            except Exception as e:  # pylint: disable=broad-except
+                res.append([[[('C15.build.error', f'scan:{type(e).__name__}', repr(e), 'scan succeeds')], 0] for _ in runs])
+                continue
+            res.append(
+                [
+                    _in_child(lambda r=r: history_once(eng, factories, *r))  # pylint: disable=cell-var-from-loop
+                    for r in runs
+                ]
+            )
+            eng.forget()
+            shop.engines.remove(eng)
+    return res
+
+
+def history_cases(tier, seed):
+    '''-> (engines, list of (engine index, stale dict, case index, targets, steps), number of enumerated ones)'''
+    out = []
+    engines = fixed_engines()
+    for ei, spec in enumerate(engines):
+        items = G.version_items(spec)
+        for mode in range(3):  # everything persisted / nothing / every second item
+            stale = {it: (False, True, bool(k % 2))[mode] for k, it in enumerate(items)}
+            for ti, targets in enumerate(TARGETS):
+                for k, item in enumerate(items):
+                    steps = [*ROUND, ('bump', item, k + ti + mode), *ROUND]
+                    out.append((ei, stale, k + ti + 3 * mode, targets, [list(x) for x in steps]))
+    n_enum = len(out)
+    for k in range(25 if tier == 'quick' else 400):
+        rng = random.Random(f'c15:reload:{seed}:{k}')
+        spec = G.random_spec(rng, nmax=3, nmin=1)
+        engines.append(spec)
+        items = G.version_items(spec)
+        p = rng.choice((0.0, 0.3, 1.0))
+        stale = {it: rng.random() < p for it in items}
+        steps = list(ROUND)
+        for _ in range(rng.choice((1, 2, 2))):
+            for it in rng.sample(items, min(len(items), rng.choice((1, 1, 2)))):
+                steps.append(('bump', it, rng.randrange(4)))
+            steps.extend(ROUND if rng.random() < 0.8 else (('load',), ('load',)))
+        out.append((len(engines) - 1, stale, rng.randrange(10**6), rng.choice(TARGETS), [list(x) for x in steps]))
+    return engines, out, n_enum
 
 
 def build_cases(tier, seed):
@@ -393,6 +594,29 @@ def run(tier: str, seed: int) -> dict:
     for clause, sig, inp, obs, exp in obad:
         note(clause, sig, inp, obs, exp)
 
+    # (c) first: the parent has not loaded anything yet when the histories' processes are forked
+    hengines, hcases, h_enum = history_cases(tier, seed)
+    per_engine = {}
+    for ei, stale, ci, targets, steps in hcases:
+        per_engine.setdefault(ei, []).append((stale, ci, targets, steps))
+    hjobs = [(hengines[ei], runs) for ei, runs in per_engine.items()]
+    hresults = G.run_cases(_hist_worker, hjobs, 16 if tier == 'thorough' else 1)
+    histories, hloads, hkeys = 0, 0, set()
+    for (spec, runs), res in zip(hjobs, hresults):
+        for (stale, ci, targets, steps), (bad, loads) in zip(runs, res):
+            histories += 1
+            hloads += loads
+            key = (G.spec_key(spec), tuple(sorted(k for k, v in stale.items() if v)), len(targets), json.dumps(steps))
+            hkeys.update((key, k) for k in range(loads))
+            for clause, sig, obs, exp in bad:
+                note(
+                    clause,
+                    sig,
+                    {'part': 'reload', 'spec': spec, 'stale': stale, 'case_index': ci, 'targets': targets, 'steps': steps},
+                    obs,
+                    exp,
+                )
+
     engines, cases, n_enum = build_cases(tier, seed)
     per_engine = {}
     for ei, stale, ci, targets in cases:
@@ -421,23 +645,29 @@ def run(tier: str, seed: int) -> dict:
         v['count'] = counts[v['signature']]
     sample = cases[len(cases) // 3]
     return {
-        'cases': ocases + builds,
-        'distinct': n_small + 27**3 + len(keys),
+        'cases': ocases + builds + hloads,
+        'distinct': n_small + 27**3 + len(keys) + len(hkeys),
         'rule': (
             'order: one case = one ordered pair (all operators, newer, consistency laws) or triple (transitivity); '
             'build: one case = version.current + schedule.build on a generated engine with one fresh/stale '
             'assignment of its versioned items and one list of known targets; distinct = distinct small pairs + '
-            f'triples + distinct (engine, stale set, number of targets); {evals} operator evaluations, {builds} builds'
+            f'triples + distinct (engine, stale set, number of targets); {evals} operator evaluations, {builds} builds; '
+            'reload: one case = one load (version.current + version.persistent + schedule.build) of a history of '
+            'several loads in one process with version.record between them; distinct = distinct (engine, initially '
+            f'stale set, number of targets, steps, load number); {histories} histories, {hloads} loads'
         ),
         'exhaustive': True,
         'exhaustive_part': (
             f'27x27 pairs, 27^3 triples; {n_enum} builds = every fresh/stale subset x 3 target lists on 6 fixed '
-            'engines (representation of fresh/stale cycled); the seeded random part comes on top'
+            f'engines (representation of fresh/stale cycled); {h_enum} reload histories = 6 fixed engines x 3 initial '
+            'states of the data base x 3 target lists x every item bumped; the seeded random parts come on top'
         ),
         'samples': [
             {'part': 'order', 'a': [1, 0, 2], 'b': [1, 1, 0], 'carriers': [0, 2]},
             {'part': 'build', 'spec': engines[sample[0]], 'stale': sample[1], 'case_index': sample[2], 'targets': sample[3]},
             {'part': 'build', 'spec': engines[cases[-1][0]], 'stale': cases[-1][1], 'case_index': cases[-1][2], 'targets': cases[-1][3]},
+            {'part': 'reload', 'spec': hengines[hcases[h_enum // 2][0]], 'stale': hcases[h_enum // 2][1], 'case_index': hcases[h_enum // 2][2],
+             'targets': hcases[h_enum // 2][3], 'steps': hcases[h_enum // 2][4]},
         ],
         'violations': out,
         'clauses': CLAUSES,
@@ -454,6 +684,11 @@ def replay(case: dict) -> dict:
         return {'reproduced': bool(hit), 'observed': 'a<=b, b<=c, not a<=c' if hit else 'transitive', 'expected': 'a<=c'}
     if inp.get('part') == 'order':
         bad, _ = _pair(inp['carriers'][0], inp['carriers'][1], tuple(inp['a']), tuple(inp['b']))
+    elif inp.get('part') == 'reload':
+        res = _hist_worker([(inp['spec'], [(inp['stale'], inp['case_index'], inp['targets'], inp['steps'])])])
+        bad = res[0][0][0]
+        if case.get('signature') is not None:
+            bad = [b for b in bad if b[1] == case['signature']]
     else:
         res = _worker([(inp['spec'], [(inp['stale'], inp['case_index'], inp['targets'])])])
         bad = res[0][0]
